@@ -43,12 +43,27 @@ STATIC_TREE = {
 }
 
 
+# A second project directory: the same module names, another layout (who defines and who
+# re-exports is swapped).  Operations carry the tree they run in; the subject changes its
+# working directory between operations, the reference runs the operation in a fresh fork
+# inside the same tree.  Nothing of an earlier tree may leak into a later one.
+E2_CWD_B = C.SCRATCH_ROOT / "e2cwd_b"
+STATIC_TREE_B = dict(STATIC_TREE)
+STATIC_TREE_B.update({
+    "vs_reexport.py": "def lib_func(x):\n    return x - 1\n\n\nclass LibClass:\n    pass\n\n\ndef shown_alias():\n    return 0\n",
+    "vs_lib.py": "from vs_reexport import lib_func, LibClass\n\nLIB_CONST = 4\n",
+    "vs_all.py": "from vs_reexport import shown_alias as shown\n\n\ndef hidden():\n    return 2\n",
+})
+TREE_DIRS = {"A": E2_CWD, "B": E2_CWD_B}
+
+
 def ensure_static_tree() -> None:
-    for rel, text in STATIC_TREE.items():
-        p = E2_CWD / rel
-        if not p.exists() or p.read_text() != text:
-            p.parent.mkdir(parents=True, exist_ok=True)
-            p.write_text(text)
+    for root, tree in ((E2_CWD, STATIC_TREE), (E2_CWD_B, STATIC_TREE_B)):
+        for rel, text in tree.items():
+            p = root / rel
+            if not p.exists() or p.read_text() != text:
+                p.parent.mkdir(parents=True, exist_ok=True)
+                p.write_text(text)
 
 
 class SimAbort(BaseException):
@@ -69,7 +84,7 @@ def repo_hash() -> str:
             parts.append(p.read_bytes())
         parts.append(sys.version)
         parts.append("hashseed=" + os.environ.get("PYTHONHASHSEED", "random"))  # references are per hash seed
-        parts.append(json.dumps(STATIC_TREE, sort_keys=True))
+        parts.append(json.dumps([STATIC_TREE, STATIC_TREE_B], sort_keys=True))
         parts.append(Path(__file__).read_bytes())  # wrappers are part of the reference's environment
         _REPO_HASH = C.sha(*parts)[:20]
     return _REPO_HASH
@@ -389,6 +404,7 @@ def run_op(op: Dict[str, Any], lazies: Dict[int, Any]) -> Any:
     from pyrefact import processing
 
     kind = op["op"]
+    os.chdir(TREE_DIRS[op.get("tree", "A")])
     if kind == "FMT":
         return ["ok", pyrefact.format_code(
             op["x"], preserve=frozenset(op.get("preserve", ())), safe=op.get("safe", False),
@@ -673,9 +689,15 @@ def execute(case: Dict[str, Any]) -> Dict[str, Any]:
                     raise C.HarnessError("reference: " + ref[1])
                 if ref != res:
                     stats.inc("divergences")
+                    same_text_other_tree = any(
+                        h.get("x") == op.get("x") and h.get("tree", "A") != op.get("tree", "A") for h in ops[:i]
+                    )
                     violations.append({
                         "class": "O1-result-differs-from-fresh-process",
-                        "finding_key": f"O1:{op.get('rule') or op.get('fn') or op['op']}",
+                        "finding_key": (
+                            "O1:same-text-formatted-earlier-in-another-project-tree" if same_text_other_tree
+                            else f"O1:{op.get('rule') or op.get('fn') or op['op']}"
+                        ),
                         "detail": f"op #{i} {op['op']} {op.get('rule') or op.get('fn') or ''}: result after this history differs from the result in a fresh process; "
                                   f"history={_short(res)} fresh={_short(ref)}",
                         "op": i,
@@ -751,6 +773,9 @@ def execute(case: Dict[str, Any]) -> Dict[str, Any]:
         stats.merge(server.stats)
     finally:
         server.close()
+    if case.get("trees"):
+        for v in violations:
+            v["props"] = ["C18", "C05"]  # import normalisation against another on-disk layout, through history
     for v in violations:
         log.add("violation", v["class"], v["finding_key"])
     log.add("verdict", "ok" if not violations else "violations")
@@ -961,6 +986,33 @@ def generate_sweep(rng: random.Random, index: int, of: int, light: bool = False)
     return {"engine": "e2", "knobs": knobs, "ops": ops}
 
 
+def generate_trees(rng: random.Random, profile: Dict[str, Any]) -> Dict[str, Any]:
+    """History over two project trees (same module names, other layout) in one
+    process: clients of plain modules are formatted in tree A and tree B in drawn
+    order; mostly *different* client texts per tree (nothing keyed by text can be
+    stale then), sometimes the same text in both (known finding K5)."""
+    clients = [c for c in gen.STATIC_TREE_CLIENTS if "vs_pkg" not in c]
+    variants = []
+    for c in clients:
+        variants.append(c)
+        variants.append(c + "\nprint('variant')\n")
+        variants.append("import os\n" + c + "print(os.sep)\n")
+    ops: List[Dict[str, Any]] = []
+    used: Dict[str, str] = {}
+    same_text_allowed = rng.random() < 0.25
+    for _ in range(rng.randint(4, 10)):
+        x = rng.choice(variants)
+        tree = rng.choice(["A", "B"])
+        if not same_text_allowed and used.get(x, tree) != tree:
+            tree = used[x]
+        used.setdefault(x, tree)
+        op: Dict[str, Any] = {"op": "FMT", "x": x, "tree": tree}
+        if rng.random() < 0.3:
+            op = {"op": "RULE", "rule": rng.choice(["tracing.fix_reimported_names", "tracing.fix_starred_imports"]), "x": x, "tree": tree}
+        ops.append(op)
+    return {"engine": "e2", "knobs": rng.choice(["default", "unbounded"]), "ops": ops, "keep_going": False, "trees": True}
+
+
 def generate_chains(rng: random.Random, profile: Dict[str, Any]) -> Dict[str, Any]:
     """C09 workload: 2-4 inputs, each formatted six times in a row on its own
     output with one drawn option combination; the chains are interleaved so the
@@ -1013,7 +1065,9 @@ def generate_chains(rng: random.Random, profile: Dict[str, Any]) -> Dict[str, An
 
 def run_seed(seed: int, **profile) -> Dict[str, Any]:
     rng = random.Random(seed)
-    if profile.get("chains"):
+    if profile.get("trees"):
+        case = generate_trees(rng, profile)
+    elif profile.get("chains"):
         case = generate_chains(rng, profile)
     elif profile.get("sweep"):
         case = generate_sweep(rng, profile["index"], profile["of"], light=bool(profile.get("light")))
@@ -1101,6 +1155,8 @@ COMPONENTS = {
 
 def props_of(v: Dict[str, Any]) -> List[str]:
     cls = v["class"]
+    if v.get("props"):
+        return v["props"]
     if cls.startswith("O5"):
         return ["C03"]
     if cls.startswith("C09"):
